@@ -391,6 +391,30 @@ def job_families(tier, rng):
     for t in range(10):
         v = rng.normal(size=3); v /= np.linalg.norm(v)
         chk(_guard(lambda: 0 <= si.get_Wtype_state_GME(*[float(x) for x in v]) <= 1), fn='get_Wtype_state_GME', abc=v.tolist())
+    # closed-form GME of W-type states against an independent variational oracle: 1 - max over product states of the squared overlap (alternating maximisation, several starts).
+    # Every product state gives GME <= 1 - overlap, so 'closed form <= oracle' is a sound one-sided test; equality within 2e-5 where the iteration has converged. Both branches of the formula.
+    def _w_oracle(a, b, c, starts=8, iters=400):
+        psi = np.zeros((2, 2, 2)); psi[1, 0, 0] = a; psi[0, 1, 0] = b; psi[0, 0, 1] = c
+        best = 0.0
+        for s_ in range(starts):
+            v3 = [rng.normal(size=2) + 1j * rng.normal(size=2) for _ in range(3)]
+            v3 = [x / np.linalg.norm(x) for x in v3]
+            for it in range(iters):
+                o = [x.conj() for x in v3]
+                w0 = np.einsum('ijk,j,k->i', psi, o[1], o[2]); v3[0] = w0 / np.linalg.norm(w0); o[0] = v3[0].conj()
+                w1 = np.einsum('ijk,i,k->j', psi, o[0], o[2]); v3[1] = w1 / np.linalg.norm(w1); o[1] = v3[1].conj()
+                w2 = np.einsum('ijk,i,j->k', psi, o[0], o[1]); v3[2] = w2 / np.linalg.norm(w2)
+            best = max(best, abs(np.einsum('ijk,i,j,k->', psi, v3[0].conj(), v3[1].conj(), v3[2].conj())) ** 2)
+        return 1 - best
+    wpts = [(1, 1, 1), (0.6, 0.6, 0.53), (0.9, 0.3, 0.32), (0.7, 0.5, 0.51), (2, 1, 1), (1, 1, 0.2), (3, 2, 2.5), (1, 0.9, 0.8)] + [tuple(rng.uniform(0.2, 1, 3)) for _ in range(4 if npts <= 21 else 12)]
+    nmain = 0
+    for abc in wpts:
+        v = np.array(abc, dtype=float); v = v / np.linalg.norm(v)
+        a_, b_, c_ = (float(x) for x in v)
+        main = (b_ ** 2 + c_ ** 2 > a_ ** 2) and (a_ ** 2 + c_ ** 2 > b_ ** 2) and (a_ ** 2 + b_ ** 2 > c_ ** 2)
+        nmain += int(main)
+        chk(_guard(lambda: (lambda g, o_: g <= o_ + 1e-9 and abs(g - o_) < 2e-5)(float(si.get_Wtype_state_GME(a_, b_, c_)), _w_oracle(a_, b_, c_))), fn='get_Wtype_state_GME vs variational oracle', abc=[a_, b_, c_], main_branch=main)
+    chk(nmain >= 4, fn='get_Wtype_state_GME: main branch of the closed form exercised', count=nmain)
     return [ob(f'{PROP}.parametric_families.grids_incl_endpoints', 'pass' if bad is None else 'refuted', tier='B', backend='native', functions=['numqi.state._internal (all public constructors and closed forms)'],
                evaluations=cnt, distinct_nontrivial=cnt, witness=bad, native=dict(confirmed=bad is not None), sample=dict(fn='Werner', d=3, alpha=0.25))]
 
